@@ -107,6 +107,14 @@ def axesBefore : List SAtom → Nat
   | fix _ _ :: r => axesBefore r
   | arr _ _ _ :: _ => 0
 
+/-- result axes produced ahead of the first integer or array entry -/
+def axesBeforeAdv : List SAtom → Nat
+  | [] => 0
+  | axis _ _ :: r => 1 + axesBeforeAdv r
+  | new :: r => 1 + axesBeforeAdv r
+  | fix _ _ :: _ => 0
+  | arr _ _ _ :: _ => 0
+
 /-- source coordinate for plain coordinate `po` and array coordinate `ac` -/
 def walk : List SAtom → Index → Index → Index
   | [], _, _ => []
